@@ -179,7 +179,12 @@ class Dictionary:
             self._settings.CACHE_SIZE_LIMIT
             and len(cache) > self._settings.CACHE_SIZE_LIMIT
         ):
-            cache.pop(list(cache.keys())[0])
+            # evict the oldest entry, but never the one that was just written:
+            # the caller reads it back right after this call
+            own_key = self._settings.registry_key
+            oldest = next((key for key in cache if key != own_key), None)
+            if oldest is not None:
+                cache.pop(oldest)
 
     def _split_by_known_words(self, string: str, keep_formatting: bool):
         regex = self._get_split_regex_cache()
